@@ -140,16 +140,25 @@ mod c18 {
         assert!(b > a, "strictly increasing along one thread's calls");
     }
 
-    /// canary
+    /// canary: "the generator always returns last + 1" is false (the clock may be ahead) and must be refuted
     #[kani::proof]
+    #[kani::unwind(4)]
     #[kani::should_panic]
     #[kani::stub(std::rt::thread_cleanup, noop)]
     #[kani::stub(std::time::SystemTime::now, any_system_time)]
     #[kani::stub(std::time::Instant::now, zero_instant)]
-    fn c18_canary_compute_next_is_last_plus_one() {
+    #[kani::stub(std::sync::atomic::Atomic::<i64>::load, stub_load)]
+    #[kani::stub(std::sync::atomic::Atomic::<i64>::compare_exchange, stub_cas)]
+    fn c18_canary_always_last_plus_one() {
         let g = any_generator();
-        let last: i64 = kani::any();
-        kani::assume(last < i64::MAX && last >= 0);
-        assert!(g.compute_next(last) == last + 1);
+        unsafe {
+            LAST = kani::any();
+            kani::assume(LAST >= 0 && LAST < i64::MAX - 8);
+            ENV_BUDGET = 0;
+            MY_CAS_OK = 0;
+        }
+        let start = unsafe { LAST };
+        let r = g.next_timestamp();
+        assert!(r == start + 1);
     }
 }
